@@ -41,7 +41,11 @@ SPEC = {
              "key + later field fault -> rotated; field fault -> good -> destination overwritten externally -> cipher "
              "fault -> good; key file created -> deleted -> created again, destination deleted -> formatter fault -> "
              "good; key file in a missing directory; several destinations; formats alternating; sub-configuration key "
-             "file repaired and rotated); then seeded random schemas (depth <= 2) x random 0-2 faults x random key-file "
+             "file repaired and rotated; the ROOT's key file NAME re-assigned between saves of one object (K1 -> K2 -> K1, "
+             "to a missing file that gets created, to one under ~, to a short / empty / missing-directory one where the save "
+             "must fail -- also when only nested secrets are set -- and back) with secrets at the root, in a "
+             "sub-configuration, two levels deep, in list items and in a sub-configuration of a list item, the list "
+             "items kept alive across saves, reload by a fresh configuration naming the CURRENT key file); then seeded random schemas (depth <= 2) x random 0-2 faults x random key-file "
              "states, and random histories of 2-6 steps (saves with fresh faults, external writes/deletes of key files "
              "and destinations); the round-trip matrix of the success clause: every kind of plain Python value an untyped "
              "field accepts (tuples, nested tuples, tuples inside lists/dicts, int dict keys, sets, frozensets, bytes, "
@@ -59,7 +63,11 @@ SPEC = {
              "%.6f / %.12g renderings (pi, 1234567.891, 0.1+0.2, 1e-7+1e-13, 1/3, max, min normal, 1e22, 1e23, 2^53+1 ...) "
              "and lists of them (sign of zero compared); for every int/str/bool/float/bytes kind the variant 'the field "
              "has that value as its DEFAULT and was explicitly assigned None before the save' (the fresh configuration "
-             "must hold None, not the default); BoolField True/False next to IntField 1/0/-7/2^40; None in "
+             "must hold None, not the default); map keys that are not XML names (blank inside, leading digit, empty, tab, "
+             "newline, ':', leading '-', '<', '&', quote, '/', leading blank, all digits, '=', two keys differing only in "
+             "blanks) next to keys that are (non-ASCII, '.', 'xml' prefix, '_') in AnyField / untyped list / untyped dict "
+             "/ typed DictField values x 5 formats: either the save fails and the destination is unchanged (XML) or the "
+             "file reloads into an equal map -- never a successful save that reloads unequal; BoolField True/False next to IntField 1/0/-7/2^40; None in "
              "every field type; empty typed list/dict -- reload into a fresh configuration, values compared with exact "
              "types. non-trivial = the destination existed before or a fault was injected; "
              "distinct = distinct (schema, values, faults, world)"),
@@ -91,6 +99,13 @@ SPEC = {
                     "CR strings are generated for the other four formats only); a typed ListField / DictField that was never "
                     "set holds None and loads back as [] / {} in every format (not generated). Every other typed kind of "
                     "the matrix round-trips exactly in all five formats on the unchanged tree, nan, inf and -0.0 included",
+                    "observed, not counted: YAML writes map keys sorted, so the ORDER of a map's keys changes on reload (maps are "
+                    "compared as Python dicts: same keys with the same types, same values, any order)",
+                    "REPORTED, no ruling yet, kept out of the generated domain (NOT_REPRESENTABLE / "
+                    "TYPED_NOT_REPRESENTABLE in s_savefaults.py): under XML a map key containing '>' SAVES SUCCESSFULLY "
+                    "(ElementTree does not check tag names, minidom re-parses '<a>b type=\"str\">v1</a>b>' as element 'a') "
+                    "and loads back as a different map: {'a>b': 'v1'} -> {'a': 'b type=\"str\">v1'}; every other "
+                    "non-name key makes the XML save fail with the destination untouched",
                     "an empty SecureField value '' is stored as null and loads back as None: treated as equal",
                     "load_after_save is stated over a decoder assumed to invert the formatter (C04); equality of the "
                     "reloaded configuration is C02 and is only sampled here (oracle)"],
